@@ -111,7 +111,7 @@ func verifyVariant(p *Program, con *Contract, choice []enumChoice, mode string, 
 	c := NewCtx()
 	x := &Exec{eng: eng, c: c, mode: mode, con: con, pkg: con.Pkg.Types, info: con.Pkg.TypesInfo, key: con.Key,
 		counters: map[string]int{}, boxed: map[types.Object]bool{}, placehold: map[string]Val{}, assumed: map[string]bool{}, abstract: map[string]bool{},
-		loopOrd: map[ast.Stmt]int{}, rangeFacts: map[int]bool{}, callCount: map[string]int{}, specs: map[string]*specInfo{}, globalInit: map[string]bool{}}
+		loopOrd: map[ast.Stmt]int{}, rangeFacts: map[int]bool{}, callCount: map[string]int{}, specs: map[string]*specInfo{}, globalInit: map[string]bool{}, callSeen: map[string]int{}}
 	res = &FuncResult{Key: con.Key, Contract: con, Ctx: c, Exec: x}
 	var vparts []string
 	for _, ch := range choice {
@@ -275,6 +275,11 @@ func verifyVariant(p *Program, con *Contract, choice []enumChoice, mode string, 
 		return res
 	}
 	x.cover(st, con.Key+"/cover.requires", "precondition and type invariants satisfiable")
+	for _, g := range con.Ghosts {
+		if g.Anchor == "entry" {
+			x.runGhost(st, g)
+		}
+	}
 
 	end := x.block(st, con.Decl.Body.List)
 	if !x.dead(end) {
@@ -324,6 +329,11 @@ func verifyVariant(p *Program, con *Contract, choice []enumChoice, mode string, 
 	}
 	x.placehold = ph
 	x.old = entry
+	for _, g := range con.Ghosts {
+		if g.Anchor == "return" {
+			x.runGhost(final, g)
+		}
+	}
 	for _, en := range con.Ensures {
 		for k, conj := range x.clauseConjuncts(final, en, nil) {
 			name := fmt.Sprintf("%s/%s", con.Key, en.Name)
